@@ -317,6 +317,11 @@ func streamC04(w *W, rng *rand.Rand, tier string) {
 		c04Shape(w, rng, ps, 0, false, 1024, 6, true)
 	}
 	if tier == "thorough" {
+		streamC04Float(w, rng, 400)
+	} else {
+		streamC04Float(w, rng, 40)
+	}
+	if tier == "thorough" {
 		for _, n := range []int{4000, 20000, 65535, 65536, 65537, 70000} {
 			lim := int64(1) << 20
 			ps := c04Layout(rng, n, lim)
@@ -328,7 +333,157 @@ func streamC04(w *W, rng *rand.Rand, tier string) {
 	}
 }
 
+// tag 43 (implementation only: coordinates outside the model's dyadic grid, where float64 sums and
+// midpoints round): args = kind closed moved dxbits dybits n (xbits ybits)* qminx qminy qmaxx qmaxy (float64 bits).
+// Output [1] when Search reports exactly the segments whose rectangle intersects the query (each once,
+// each the idx-th segment), judged by a scan over SegmentAt on the same floats; else [0 found brute first-diff].
+func implSearchFloat(a []int64) []int64 {
+	f := func(b int64) float64 { return math.Float64frombits(uint64(b)) }
+	n := int(a[5])
+	ps := make([]geometry.Point, n)
+	for i := range ps {
+		ps[i] = geometry.Point{X: f(a[6+2*i]), Y: f(a[7+2*i])}
+	}
+	r := a[6+2*n:]
+	opts := &geometry.IndexOptions{Kind: geometry.IndexKind(a[0]), MinPoints: 1}
+	if a[0] == 0 {
+		opts = noIndex
+	}
+	var sr geometry.Series
+	if a[1] == 1 {
+		p := geometry.NewPoly(ps, nil, opts)
+		if a[2] == 1 {
+			p = p.Move(f(a[3]), f(a[4]))
+		}
+		sr = p.Exterior
+	} else {
+		l := geometry.NewLine(ps, opts)
+		if a[2] == 1 {
+			l = l.Move(f(a[3]), f(a[4]))
+		}
+		sr = l
+	}
+	q := geometry.Rect{Min: geometry.Point{X: f(r[0]), Y: f(r[1])}, Max: geometry.Point{X: f(r[2]), Y: f(r[3])}}
+	got := map[int]int{}
+	bad := false
+	sr.Search(q, func(seg geometry.Segment, idx int) bool {
+		got[idx]++
+		if idx < 0 || idx >= sr.NumSegments() || sr.SegmentAt(idx) != seg {
+			bad = true
+		}
+		return true
+	})
+	nb := 0
+	first := int64(-1)
+	for i := 0; i < sr.NumSegments(); i++ {
+		in := sr.SegmentAt(i).Rect().IntersectsRect(q)
+		if in {
+			nb++
+		}
+		if (in && got[i] != 1 || !in && got[i] != 0) && first < 0 {
+			first = int64(i)
+		}
+	}
+	if bad || first >= 0 {
+		return []int64{0, int64(len(got)), int64(nb), first}
+	}
+	return []int64{1}
+}
+
+// non-dyadic layouts: decimal grids whose sums and midpoints round in float64
+func streamC04Float(w *W, rng *rand.Rand, reps int) {
+	fb := func(v float64) int64 { return int64(math.Float64bits(v)) }
+	units := []float64{0.1, 0.3, 1.0 / 3, 0.7, 1e-3, 0.05}
+	for rep := 0; rep < reps; rep++ {
+		u := units[rng.Intn(len(units))]
+		k := []int{20, 33, 40, 64, 70, 100}[rng.Intn(6)]
+		var ps []geometry.Point
+		switch rng.Intn(4) {
+		case 0: // staircase
+			for i := 0; i < k; i++ {
+				ps = append(ps, geometry.Point{X: float64(i) * u, Y: float64(i) * u}, geometry.Point{X: float64(i+1) * u, Y: float64(i) * u})
+			}
+			ps = append(ps, geometry.Point{X: float64(k) * u, Y: float64(k) * u}, geometry.Point{X: 0, Y: float64(k) * u})
+		case 1: // subdivided square
+			for i := 0; i < k; i++ {
+				ps = append(ps, geometry.Point{X: float64(i) * u, Y: 0})
+			}
+			for i := 0; i < k; i++ {
+				ps = append(ps, geometry.Point{X: float64(k) * u, Y: float64(i) * u})
+			}
+			for i := k; i > 0; i-- {
+				ps = append(ps, geometry.Point{X: float64(i) * u, Y: float64(k) * u})
+			}
+			for i := k; i > 0; i-- {
+				ps = append(ps, geometry.Point{X: 0, Y: float64(i) * u})
+			}
+		case 2: // random decimal grid
+			for i := 0; i < 2*k; i++ {
+				ps = append(ps, geometry.Point{X: float64(rng.Intn(41)-20) * u, Y: float64(rng.Intn(41)-20) * u})
+			}
+		default: // zig-zag
+			for i := 0; i < 2*k; i++ {
+				y := -2 * u
+				if i%2 == 0 {
+					y = 2 * u
+				}
+				ps = append(ps, geometry.Point{X: float64(i) * u, Y: y})
+			}
+		}
+		closed := rng.Intn(2) == 0
+		if closed {
+			ps = append(ps, ps[0])
+		}
+		dx, dy := float64(rng.Intn(21)-10)*u, float64(rng.Intn(21)-10)*u
+		if rng.Intn(3) == 0 {
+			dx, dy = u, u
+		}
+		for j := 0; j < 12; j++ {
+			moved := int64(rng.Intn(2))
+			at := func() geometry.Point {
+				p := ps[rng.Intn(len(ps))]
+				if moved == 1 {
+					return geometry.Point{X: p.X + dx, Y: p.Y + dy}
+				}
+				return p
+			}
+			p1, p2 := at(), at()
+			var q [4]float64
+			switch rng.Intn(4) {
+			case 0: // a vertex
+				q = [4]float64{p1.X, p1.Y, p1.X, p1.Y}
+			case 1: // a rectangle between two vertices
+				q = [4]float64{math.Min(p1.X, p2.X), math.Min(p1.Y, p2.Y), math.Max(p1.X, p2.X), math.Max(p1.Y, p2.Y)}
+			case 2: // a horizontal / vertical line through a vertex
+				if rng.Intn(2) == 0 {
+					q = [4]float64{math.Min(p1.X, p2.X), p1.Y, math.Max(p1.X, p2.X), p1.Y}
+				} else {
+					q = [4]float64{p1.X, math.Min(p1.Y, p2.Y), p1.X, math.Max(p1.Y, p2.Y)}
+				}
+			default: // ends one ulp short of / beyond a vertex
+				q = [4]float64{math.Min(p1.X, p2.X), math.Min(p1.Y, p2.Y), math.Nextafter(math.Max(p1.X, p2.X), math.Inf(1-2*rng.Intn(2))), math.Max(p1.Y, p2.Y)}
+				if q[2] < q[0] {
+					q[2] = q[0]
+				}
+			}
+			for _, kind := range []int64{0, 1, 2} {
+				args := []int64{kind, b2i(closed), moved, fb(dx), fb(dy), int64(len(ps))}
+				for _, p := range ps {
+					args = append(args, fb(p.X), fb(p.Y))
+				}
+				args = append(args, fb(q[0]), fb(q[1]), fb(q[2]), fb(q[3]))
+				w.Do(43, args, true)
+				w.count("float-domain:search")
+				if moved == 1 {
+					w.count("float-domain:after-move")
+				}
+			}
+		}
+	}
+}
+
 func init() {
+	impls[43] = implSearchFloat
 	impls[40] = implIndexBytes
 	impls[41] = implSearch
 	impls[42] = implSearchMoved
